@@ -6,6 +6,7 @@ import SST.Drv.Merge
 import SST.Drv.MemStore
 import SST.Drv.Kaitai
 import SST.Drv.Wal
+import SST.Drv.Handles
 open SST SST.Drv
 
 def handle (line : String) : String :=
@@ -30,6 +31,8 @@ def handle (line : String) : String :=
     | "kaitai.enum" => kaitaiEnumCmd a
     | "wal.run" => walRun a
     | "wal.cuts" => walCuts a
+    | "handles.run" => handlesRun a
+    | "handles.reader" => handlesReader a
     | "ping" => "pong"
     | _ => "bad-op"
 
